@@ -372,6 +372,185 @@ pub fn probe(w: &mut World, t: &mut TraceOut) -> bool {
     true
 }
 
+/// Drive op `i` with `choose(label, suspended, enabled)` until it is done, blocked, or the
+/// chooser says stop.
+fn drive(
+    w: &mut World,
+    i: usize,
+    t: &mut TraceOut,
+    choose: &mut dyn FnMut(&str, bool, &[Outcome]) -> Option<Outcome>,
+) -> bool {
+    for _ in 0..200 {
+        let op = w.sched.op(i);
+        if op.done {
+            return true;
+        }
+        let en = w.enabled(i);
+        if en.is_empty() {
+            return true;
+        }
+        let Some(oc) = choose(&op.label, op.susp, &en) else {
+            return true;
+        };
+        if !en.contains(&oc) {
+            return true;
+        }
+        if !do_action(w, &Action::Step(i, oc), t) {
+            return false;
+        }
+    }
+    true
+}
+
+fn plain(_l: &str, susp: bool, en: &[Outcome]) -> Option<Outcome> {
+    if en.contains(&Outcome::Run) {
+        if susp {
+            None
+        } else {
+            Some(Outcome::Run)
+        }
+    } else {
+        Some(Outcome::Ok)
+    }
+}
+
+/// Exhaustive timeout table (C10): every (wait, create, recycle) in {none, zero, finite}^3,
+/// runtime present / absent, three situations (must create / must recycle / must wait)
+/// and every ordering of "deadline passes" against "the awaited thing happens".
+pub const TABLE_SIZE: u64 = 27 * 2 * 11;
+
+pub fn gen_table(k: u64) -> TraceOut {
+    let tm = [Tmo::None, Tmo::Zero, Tmo::Finite];
+    let mut x = k;
+    let variant = (x % 11) as usize;
+    x /= 11;
+    let rt = x % 2 == 1;
+    x /= 2;
+    let (tw, tc, tr) = (tm[(x % 3) as usize], tm[((x / 3) % 3) as usize], tm[((x / 9) % 3) as usize]);
+    let (scenario, v) = match variant {
+        0..=3 => ("create", variant),
+        4..=6 => ("recycle", variant - 4),
+        _ => ("wait", variant - 7),
+    };
+    let cfg = Cfg {
+        max: 1,
+        lifo: false,
+        pre: vec![],
+        postr: vec![],
+        postc: vec![],
+        rt,
+    };
+    let mut t = TraceOut {
+        lines: vec![cfg.line(), format!("# table scenario={} variant={}", scenario, v)],
+        error: None,
+    };
+    let mut w = World::new(cfg);
+    macro_rules! chk {
+        ($e:expr) => {
+            if !$e {
+                return fail(w, t);
+            }
+        };
+    }
+    if scenario != "create" {
+        chk!(start_and_run(&mut w, Spec::Get(Tmo::None, Tmo::None, Tmo::None), &mut t));
+        if scenario == "recycle" {
+            for id in w.out_ids() {
+                chk!(start_and_run(&mut w, Spec::Ret(id), &mut t));
+            }
+        }
+    }
+    t.lines.push("# main".into());
+    chk!(do_action(&mut w, &Action::Start(Spec::Get(tw, tc, tr)), &mut t));
+    let g = w.sched.n_ops() - 1;
+    let cb = if scenario == "create" { "create" } else { "recycle" };
+    match scenario {
+        "create" | "recycle" => {
+            let mut stage = 0;
+            let mut ch = |l: &str, susp: bool, en: &[Outcome]| -> Option<Outcome> {
+                if l == cb {
+                    let r = match (v, stage) {
+                        (0, _) => Outcome::Ok,
+                        (1, 0) => Outcome::Pending,
+                        (1, _) => Outcome::Ok,
+                        (2, 0) => Outcome::Pending,
+                        (2, _) => {
+                            if en.contains(&Outcome::Deadline) {
+                                Outcome::Deadline
+                            } else if susp {
+                                Outcome::Cancel
+                            } else {
+                                Outcome::Err
+                            }
+                        }
+                        (_, _) => Outcome::Err,
+                    };
+                    stage += 1;
+                    Some(r)
+                } else {
+                    plain(l, susp, en)
+                }
+            };
+            chk!(drive(&mut w, g, &mut t, &mut ch));
+        }
+        _ => {
+            // run until blocked (or failed at once)
+            chk!(drive(&mut w, g, &mut t, &mut plain));
+            let holder = w.out_ids();
+            match v {
+                0 => {
+                    for id in holder {
+                        chk!(start_and_run(&mut w, Spec::Ret(id), &mut t));
+                    }
+                }
+                1 => {
+                    if !w.sched.op(g).done && w.enabled(g).contains(&Outcome::Deadline) {
+                        chk!(do_action(&mut w, &Action::Step(g, Outcome::Deadline), &mut t));
+                    }
+                    for id in holder {
+                        chk!(start_and_run(&mut w, Spec::Ret(id), &mut t));
+                    }
+                }
+                2 => {
+                    for id in holder {
+                        chk!(start_and_run(&mut w, Spec::Ret(id), &mut t));
+                    }
+                    if !w.sched.op(g).done && w.enabled(g).contains(&Outcome::Deadline) {
+                        chk!(do_action(&mut w, &Action::Step(g, Outcome::Deadline), &mut t));
+                    }
+                }
+                _ => {
+                    chk!(start_and_run(&mut w, Spec::Close, &mut t));
+                }
+            }
+            // whatever the getter does next, all callbacks succeed
+            let mut ch = |l: &str, _s: bool, en: &[Outcome]| -> Option<Outcome> {
+                if en.contains(&Outcome::Run) {
+                    Some(Outcome::Run)
+                } else {
+                    let _ = l;
+                    Some(Outcome::Ok)
+                }
+            };
+            if !w.sched.op(g).done {
+                let op = w.sched.op(g);
+                let woken = w.wakers[g]
+                    .as_ref()
+                    .map(|f| f.0.load(std::sync::atomic::Ordering::SeqCst))
+                    .unwrap_or(false);
+                if !(op.label == "get.acquire" && op.susp && !woken) {
+                    chk!(drive(&mut w, g, &mut t, &mut ch));
+                }
+            }
+        }
+    }
+    t.lines.push("# drain".into());
+    chk!(drain(&mut w, &mut t));
+    chk!(probe(&mut w, &mut t));
+    w.finish();
+    t
+}
+
 pub fn gen_trace(seed: u64, p: &Profile) -> TraceOut {
     let mut rng = Rng::new(seed);
     let cfg = gen_cfg(&mut rng, p);
